@@ -43,10 +43,15 @@ def demote_rewritten(r):
     if not base or os.environ.get("PRSA_NO_DEMOTION"):
         return
     cache = {}
+    wrapped = set()
     for o in r.rep.obligations:
+        q = o.construct.split("#")[0].split("@")[0]
+        if o.ok and q not in wrapped and _new_wrapper(r, q, BASELINE_VOCAB.get("__functions__") or ()):
+            # a discharged obligation about a body that a new decorator wraps says nothing about the function either
+            wrapped.add(q)
+            r.rep.deferred.append(f"{q}: wrapped by a decorator introduced after validation ({_new_wrapper(r, q, BASELINE_VOCAB.get('__functions__') or ())}): its behaviour is not that of its body; cannot decide")
         if o.ok or o.detail.get("undecided"):
             continue
-        q = o.construct.split("#")[0].split("@")[0]
         if q not in cache:
             sim_ = similarity_to_baseline(r.P, q, base)
             if sim_ is None and q in r.P.functions:
@@ -57,9 +62,31 @@ def demote_rewritten(r):
                 sim_ = min(sims) if sims else None
             cache[q] = sim_
         sim = cache[q]
+        wrapper = _new_wrapper(r, q, BASELINE_VOCAB.get("__functions__") or ())
+        if wrapper:
+            o.detail["undecided"] = f"{q} is wrapped by the decorator {wrapper}, which did not exist on the validated tree: its behaviour is not that of its body"
+            r.rep.deferred.append(f"{o.rule} {q}: obligation not discharged, but the function is wrapped by a decorator introduced after validation ({wrapper}); cannot decide")
+            continue
         if sim is not None and sim < REWRITTEN_BELOW:
             o.detail["undecided"] = f"{q} was rewritten wholesale relative to the validated tree (similarity {sim:.2f} < {REWRITTEN_BELOW})"
             r.rep.deferred.append(f"{o.rule} {q}: obligation not discharged, but the function was rewritten wholesale (similarity {sim:.2f}); cannot decide")
+
+
+def _new_wrapper(r, q, base_functions):
+    """Name of a decorator of function q that is (a call of) a repository function unknown to the validated tree, else None."""
+    import ast
+    f = r.P.functions.get(q)
+    if f is None or not base_functions:
+        return None
+    for d in getattr(f.node, "decorator_list", ()):
+        n = d.func if isinstance(d, ast.Call) else d
+        while isinstance(n, ast.Attribute):
+            n = n.value
+        if isinstance(n, ast.Name):
+            g = r.P.resolve_global(f.module, n.id)
+            if g in r.P.functions and g not in base_functions:
+                return g
+    return None
 
 
 def run_property(prop, tier, seed, root=None, write_evidence=True, quiet=False, selftest=True):
